@@ -364,6 +364,17 @@ def weave(e_src, e0_src, p_src, drop_hints=None):
     n_out = len(out)
     while i < n_out:
         t, tag, _ = out[i]
+        if tag == 'annot' and t in ('invariant', 'invariant_except_break'):
+            # the specification of a loop (`invariant ... decreases ...`): the run of annotation tokens up to the next
+            # code token.  When the loop it belonged to was rewritten away, the run is transplanted to wherever the
+            # surrounding tokens went (e.g. into an argument list); leaving it out is as sound as leaving out a hint
+            # (a loop without invariant proves less, never more).
+            j = i
+            while j + 1 < n_out and out[j + 1][1] == 'annot' and out[j + 1][0] not in ('proof', 'assert'):
+                j += 1
+            items.append((i, j))
+            i = j + 1
+            continue
         if tag == 'annot' and t in ('proof', 'assert'):
             nxt = i + 1
             while nxt < n_out and out[nxt][1] != 'annot':
